@@ -28,6 +28,7 @@ import (
 	"runtime"
 	"sort"
 	"sync"
+	"time"
 
 	"verif/vkit"
 )
@@ -168,7 +169,7 @@ type tup struct {
 	cls, mv uint8
 }
 
-var bucketName = [...]string{"0", "1", "2", "3", "4-7", "8-15", "16-31", "32-63", "64-255", "256+"}
+var bucketName = [...]string{"0", "1", "2", "3", "4-7", "8-15", "16-31", "32-63", "64-255", "256-4095", "4096-65535", "65536+"}
 
 func bucketOf(n int) uint8 {
 	switch {
@@ -184,8 +185,12 @@ func bucketOf(n int) uint8 {
 		return 7
 	case n < 256:
 		return 8
+	case n < 4096:
+		return 9
+	case n < 65536:
+		return 10
 	}
-	return 9
+	return 11
 }
 
 type local struct {
@@ -269,12 +274,24 @@ func run(r *vkit.Report) {
 	posReps := r.Scale(3, 20)
 	nPos := len(posScripts) * posReps
 
-	r.Cases("heap", nHeap, workers, runHeap)
-	r.Cases("pq", nPQ, workers, func(c *vkit.Case) { runPQCase(c, nil) })
-	r.Cases("pos", nPos, workers, func(c *vkit.Case) {
+	// large histories first: they are the longest cases
+	nLarge := r.Scale(48, 480)
+	nThr := r.Scale(thrMaxK*12, thrMaxK*12*4)
+	wall := map[string]float64{} // recorded only (never judged)
+	timed := func(group string, n int, fn func(c *vkit.Case)) {
+		t0 := time.Now()
+		r.Cases(group, n, workers, fn)
+		wall[group] = float64(time.Since(t0).Milliseconds()) / 1000
+	}
+	timed("large", nLarge, runLarge)
+	timed("thr", nThr, runThr)
+	timed("heap", nHeap, runHeap)
+	timed("pq", nPQ, func(c *vkit.Case) { runPQCase(c, nil) })
+	timed("pos", nPos, func(c *vkit.Case) {
 		s := posScripts[c.Index%len(posScripts)]
 		runPQCase(c, &s)
 	})
+	r.SetExtra("wall_s_by_group(informational)", wall)
 
 	violTrack.Lock()
 	if len(violTrack.n) > 0 {
@@ -290,7 +307,7 @@ func run(r *vkit.Report) {
 		r.SetExtra("violating_cases_by_group", out)
 	}
 	violTrack.Unlock()
-	r.SetExtra("histories", map[string]int{"heap": nHeap, "pq": nPQ, "pos (every size 1..16 x every index x action x build)": nPos})
+	r.SetExtra("histories", map[string]int{"large (up to 70000+ items)": nLarge, "thr (size boundaries 2^k-1, 2^k, 2^k+1, k <= 16)": nThr, "heap": nHeap, "pq": nPQ, "pos (every size 1..16 x every index x action x build)": nPos})
 
 	// Coverage floors: sums over the whole (seed-determined) case list.
 	q := int64(1)
@@ -298,6 +315,31 @@ func run(r *vkit.Report) {
 		q = 10
 	}
 	fl := func(name, table, key string, want int64) { r.Floor(name, r.Table(table, key), want*q) }
+	for _, what := range []string{"Heap", "PQ"} {
+		r.Floor("largest "+what+" held in a large history", r.Table("max:sizes", "large "+what+" items held"), 70000)
+		r.Floor("largest "+what+" held in the boundary sweep", r.Table("max:sizes", "thr "+what+" items held"), 2*(1<<thrMaxK))
+		for _, size := range []int{1000, 4096, 8192, 20000} {
+			fl(fmt.Sprintf("large %s histories that reached the plateau %d", what, size), "large: plateaus reached", fmt.Sprintf("%s %d", what, size), 20)
+		}
+		fl("large "+what+" histories that reached the plateau 70000", "large: plateaus reached", what+" 70000", 3)
+		fl("new strict minimum inserted into a "+what+" holding >= 4095", "large: new strict minimum inserted", what+" holding >= 4095", 200)
+		fl(what+" Pop directly followed by an insert while holding >= 4096", "large: Pop directly followed by an insert", what+" holding >= 4096", 50000)
+	}
+	for k := 1; k <= thrMaxK; k++ {
+		got := int64(1 << 62)
+		for _, n := range []int{1<<k - 1, 1 << k, 1<<k + 1} {
+			if v := r.Table("thr: boundary sizes", fmt.Sprint(n)); v < got {
+				got = v
+			}
+		}
+		want := int64(12) // every configuration once
+		if r.Thorough() {
+			want = 40
+		} else if k >= 15 {
+			want = 4
+		}
+		r.Floor(fmt.Sprintf("boundary sweep at each of the sizes 2^%d-1, 2^%d, 2^%d+1", k, k, k), got, want)
+	}
 	for _, cls := range []string{"only", "first", "last", "leaf", "inner"} {
 		fl("queue Remove of the key at heap position "+cls, "target position class", "PQ.Remove-present @"+cls, 300)
 		var upd int64
